@@ -33,6 +33,9 @@ type Stats struct {
 	ChoicePoints  int
 }
 
+// executionWatchdog bounds one execution (which normally takes well under a second).
+const executionWatchdog = 240 * time.Second
+
 // run performs one controlled execution of body with the given choice prefix.
 func run(opts Options, prefix []int, cache map[[2]uint64]int8, body func()) (*Exec, Result) {
 	x := &Exec{opts: opts, prefix: prefix, chans: map[uintptr]*chanState{}, objs: map[string]*object{}, doneCh: make(chan struct{}), idle: make(chan struct{}, 1), cache: cache}
@@ -46,7 +49,17 @@ func run(opts Options, prefix []int, cache map[[2]uint64]int8, body func()) (*Ex
 	}
 	go g0.run(body)
 	g0.wake <- wakeMsg{}
-	<-x.doneCh
+	// watchdog: a managed goroutine that blocks on a real (un-hooked) primitive
+	// would hang the process; executions take milliseconds, so give up long before
+	watchdog := time.NewTimer(executionWatchdog)
+	select {
+	case <-x.doneCh:
+		watchdog.Stop()
+	case <-watchdog.C:
+		x.mu.Lock()
+		x.finish("harness-stuck", "no scheduling event: a managed goroutine is blocked on an operation the scheduler does not control")
+		x.mu.Unlock()
+	}
 	// teardown: poison every goroutine that is still parked
 	x.mu.Lock()
 	for _, g := range x.gs {
@@ -59,14 +72,20 @@ func run(opts Options, prefix []int, cache map[[2]uint64]int8, body func()) (*Ex
 	}
 	x.mu.Unlock()
 	if atomic.LoadInt32(&x.live) > 0 {
-		timer := time.NewTimer(180 * time.Second)
+		unwind := 180 * time.Second
+		if x.outcome.Kind == "harness-stuck" {
+			unwind = 2 * time.Second // the blocked goroutine cannot unwind anyway; it is leaked
+		}
+		timer := time.NewTimer(unwind)
 	wait:
 		for atomic.LoadInt32(&x.live) > 0 {
 			select {
 			case <-x.idle:
 			case <-timer.C:
+				if x.outcome.Kind != "harness-stuck" {
+					x.outcome.Detail = fmt.Sprintf("%d goroutines did not unwind", atomic.LoadInt32(&x.live))
+				}
 				x.outcome.Kind = "harness-stuck"
-				x.outcome.Detail = fmt.Sprintf("%d goroutines did not unwind", atomic.LoadInt32(&x.live))
 				break wait
 			}
 		}
